@@ -118,7 +118,8 @@ class List(Op):
         self.path = '/dev/d%d' % k
         ents = []
         for n in self.kw.get('names', (1, 2)):
-            ents.append((ctx.int('mode', 0, U32), ctx.int('size', 0, U32), ctx.int('mtime', 0, U32), ctx.bytes('name', n)))
+            name = ctx.bytes('name', n) if n <= 8 else sym_content(ctx, 'name', n, [0, 1, n // 2, n - 1])
+            ents.append((ctx.int('mode', 0, U32), ctx.int('size', 0, U32), ctx.int('mtime', 0, U32), name))
         st.fs.listing[self.path.encode()] = ents
         return ents
 
